@@ -52,6 +52,10 @@ type scenario struct {
 	entries []cpEntry
 	dataDbs []int
 	staleMs int64
+	// another input (run id idOther) keeps its position under the same key - the key every input of a non-transactional
+	// link, and every input of one target shard, shares: database and offset of its entry (off 0 = none)
+	otherDb  int
+	otherOff int64
 }
 
 func seedState(srv *fakeredis.Server, sc *scenario) {
@@ -80,7 +84,20 @@ func seedState(srv *fakeredis.Server, sc *scenario) {
 		}
 		db(e.db)[cpA] = &fakeredis.Value{Type: "hash", Hash: h}
 	}
-	db(0)[config.CheckpointKeyHashKey] = &fakeredis.Value{Type: "hash", Hash: map[string][]byte{idOld: []byte(cpA)}}
+	idx := map[string][]byte{idOld: []byte(cpA)}
+	if sc.otherOff > 0 {
+		v := db(sc.otherDb)[cpA]
+		if v == nil {
+			v = &fakeredis.Value{Type: "hash", Hash: map[string][]byte{}}
+			db(sc.otherDb)[cpA] = v
+		}
+		v.Hash[idOther+"_offset"] = []byte(strconv.FormatInt(sc.otherOff, 10))
+		v.Hash[idOther+"_version"] = []byte("1")
+		v.Hash[idOther+"_runid"] = []byte(idOther)
+		v.Hash[idOther+"_mtime"] = []byte(strconv.FormatInt(now, 10))
+		idx[idOther] = []byte(cpA)
+	}
+	db(0)[config.CheckpointKeyHashKey] = &fakeredis.Value{Type: "hash", Hash: idx}
 }
 
 type resume struct {
@@ -514,6 +531,10 @@ func main() {
 				sc.dataDbs = append(sc.dataDbs, d) // databases with data but no checkpoint
 			}
 		}
+		if sc.op != "gc" && r.Chance(50) {
+			sc.otherDb = sc.dataDbs[r.Intn(len(sc.dataDbs))]
+			sc.otherOff = int64(5000 + r.Intn(900))
+		}
 		nStates++
 		_, ids := opArgs(sc.op)
 		// how many requests does the uncrashed operation issue?
@@ -531,6 +552,10 @@ func main() {
 				id += *shards
 				seedState(srv, sc)
 				before := readResume(srv, []string{idOld})
+				otherBefore := resume{Off: -1, Db: -1, Rid: "?"}
+				if sc.otherOff > 0 {
+					otherBefore = readResume(srv, []string{idOther, strings.Repeat("0", 40)})
+				}
 				cli := connect(srv)
 				srv.SetCrashAfter(srv.RecvCount() + k)
 				opErr := runOp(cli, sc)
@@ -566,8 +591,14 @@ func main() {
 					cli3.Close()
 					later = readResume(srv, ids)
 				}
+				otherAfter := otherBefore
+				if sc.otherOff > 0 {
+					// what the next start of the other input finds (it has not run any maintenance of its own yet)
+					otherAfter = readResume(srv, []string{idOther, strings.Repeat("0", 40)})
+				}
 				tr.Emit(map[string]interface{}{"ev": "Maint", "id": id, "op": sc.op, "k": k, "total": total, "crashed": crashed, "operr": opErr != nil, "reported": "",
-					"before": before, "after": after, "later": later, "wrote": wrote, "state": fmt.Sprint(sc.entries), "datadbs": fmt.Sprint(sc.dataDbs)})
+					"before": before, "after": after, "later": later, "wrote": wrote, "state": fmt.Sprint(sc.entries), "datadbs": fmt.Sprint(sc.dataDbs),
+					"otherBefore": otherBefore, "otherAfter": otherAfter})
 				nRuns++
 			}
 		}
